@@ -135,6 +135,23 @@ impl Property for C03 {
             let (rules, _, _) = rules_for(sel);
             rules.iter().any(|r| r.name() == "optimize_projections") && !rules.iter().any(|r| r.name() == "push_down_filter")
         });
+        // known finding `not-in-null-aware-join-without-equijoin-keys`
+        let no_equijoin_set = case.sets.iter().any(|sel| {
+            let (rules, _, _) = rules_for(sel);
+            rules.iter().any(|r| r.name() == "decorrelate_predicate_subquery") && !rules.iter().any(|r| r.name() == "extract_equijoin_predicate")
+        });
+        if no_equijoin_set {
+            let mut not_in = false;
+            refsql::visit_exprs(&case.sql.query, &mut |e| match e {
+                refsql::Expr::InSubquery { negated: true, .. } => not_in = true,
+                refsql::Expr::Not(inner) if matches!(**inner, refsql::Expr::InSubquery { .. }) => not_in = true,
+                refsql::Expr::Quantified { all: true, op: refsql::BinOp::Ne, .. } => not_in = true,
+                _ => {}
+            });
+            if not_in {
+                return Some("not-in-null-aware-join-without-equijoin-keys".into());
+            }
+        }
         if !risky_set {
             return None;
         }
